@@ -16,7 +16,8 @@ Metric = namedtuple('Metric', 'name parent dir ref type')
 
 class Desc:
     def __init__(self, nodes, edges, start, choices=(), incompat=(), constraints=(), conns=(), groups=(),
-                 conn_choices=(), dvs=(), metrics=(), label=''):
+                 conn_choices=(), dvs=(), metrics=(), label='', choices_first=False):
+        self.choices_first = choices_first   # build order only: choice nodes are added before the derivation edges
         self.nodes = list(nodes)
         self.edges = list(edges)
         self.start = list(start)
